@@ -137,3 +137,58 @@ func verifC10MakeID(c, s uint64) uint64 {
 	b := &IndexBuilder{logicalClock: c, sequenceID: &seq}
 	return b.GenerateUUID()
 }
+
+// VerifC10RowMerge: background merging of the index folds two tag->ids rows into one only if they describe
+// the same (measurement, tag key, tag value); rows of different measurements (a tag-less measurement's
+// row next to another measurement's row included) must stay apart, or one measurement's series would be
+// listed under another.
+func VerifC10RowMerge() {
+	max := 1 + verifrt.Tier()
+	mk := func(p string) ([]byte, []byte, []byte, []byte) {
+		name := verifrt.Bytes(p+"name", 1+verifrt.Choose(p+"nameLen", max))
+		key := verifC10Bytes(p+"key", max)
+		val := verifC10Bytes(p+"val", max)
+		var item []byte
+		item = append(item, nsPrefixTagToTSIDs)
+		item = marshalTagValue(item, marshalCompositeTagKey(nil, name, key))
+		item = marshalTagValue(item, val)
+		item = append(item, 0, 0, 0, 0, 0, 0, 0, 7) // one series id
+		return item, name, key, val
+	}
+	i1, n1, k1, v1 := mk("a")
+	i2, n2, k2, v2 := mk("b")
+	var p1, p2 tagToTSIDsRowParser
+	verifrt.Assert(p1.Init(i1, nsPrefixTagToTSIDs) == nil && p2.Init(i2, nsPrefixTagToTSIDs) == nil, "a well-formed tag->ids row does not parse")
+	same := bytes.Equal(n1, n2) && bytes.Equal(k1, k2) && bytes.Equal(v1, v2)
+	verifrt.Assert(p1.EqualPrefix(&p2) == same, "rows are merged although they differ in measurement, tag key or tag value (or kept apart although equal)")
+	if !bytes.Equal(n1, n2) && bytes.Equal(k1, k2) && bytes.Equal(v1, v2) {
+		verifrt.Reach("other-measurement")
+	}
+	verifrt.Reach("end")
+}
+
+// VerifC10FilterReuse: tag filter objects are pooled and re-used from one predicate leaf (and one statement)
+// to the next. Initialising a re-used filter - whatever flags, cost and buffers the previous use left in it -
+// gives exactly the filter a fresh object would be: a leftover "matches everything" or "matches the empty
+// value" flag would make the next predicate select the wrong series.
+func VerifC10FilterReuse() {
+	max := 1 + verifrt.Tier()
+	name := verifrt.Bytes("name", 1+verifrt.Choose("nameLen", max))
+	key := verifC10Bytes("key", max)
+	value := verifC10Bytes("value", max)
+	neg := verifrt.Bool("negative")
+	used := &tagFilter{
+		key: verifrt.Bytes("oldKey", 2), value: verifrt.Bytes("oldValue", 2), name: verifrt.Bytes("oldName", 2), prefix: verifrt.Bytes("oldPrefix", 3),
+		orSuffixes: []string{"x"}, graphiteReverseSuffix: []byte{1},
+		matchCost: verifrt.Uint64("oldCost"), isNegative: verifrt.Bool("f1"), isRegexp: verifrt.Bool("f2"), isEmptyMatch: verifrt.Bool("f3"),
+		isAllMatch: verifrt.Bool("f4"), isEmptyValue: verifrt.Bool("f5"),
+	}
+	fresh := &tagFilter{}
+	verifrt.Assert(used.Init(name, key, value, neg, false) == nil && fresh.Init(name, key, value, neg, false) == nil, "Init of a plain tag filter failed")
+	verifrt.Assert(bytes.Equal(used.key, fresh.key) && bytes.Equal(used.value, fresh.value) && bytes.Equal(used.name, fresh.name) && bytes.Equal(used.prefix, fresh.prefix), "a re-used filter keeps bytes of its previous use")
+	verifrt.Assert(used.isNegative == fresh.isNegative && used.isRegexp == fresh.isRegexp && used.isEmptyMatch == fresh.isEmptyMatch &&
+		used.isAllMatch == fresh.isAllMatch && used.isEmptyValue == fresh.isEmptyValue, "a re-used filter keeps a flag of its previous use")
+	verifrt.Assert(used.matchCost == fresh.matchCost && len(used.orSuffixes) == len(fresh.orSuffixes) && len(used.graphiteReverseSuffix) == len(fresh.graphiteReverseSuffix) &&
+		(used.reSuffixMatch == nil) == (fresh.reSuffixMatch == nil), "a re-used filter keeps matching state of its previous use")
+	verifrt.Reach("end")
+}
